@@ -157,19 +157,20 @@ class Run:
                     if a0.cfg == args[1].cfg: return True
                     return Cond_bool("allclose(f, f_ref) across differently configured ltf calls")
                 return NotImplemented
-            if name == "numpy.sqrt" and isinstance(a0, (X, PV)) and all(isinstance(l, X) for _, l in pv_leaves(a0)):
+            if name == "numpy.sqrt" and isinstance(a0, (X, PV)) and all(isinstance(l, X) or isinstance(l, Mismatch) for _, l in pv_leaves(a0)):
                 run.sqrt_args.append(a0)
 
                 def rt(x):
+                    if is_opaque(x): return x
                     try: return x.sqrt()
                     except Unknown: return mk_fn("sqrt", [x])
                 return pv_apply(rt, a0)
             if name == "numpy.isclose" and isinstance(a0, X):
                 c = Cond.get(("isclose", a0.keystr(), repr(args[1:])), f"isclose({a0!r}, {args[1]!r}) at a bin"[:160])
                 return PV(c, True, False)
-            if name in ("numpy.abs", "numpy.absolute") and isinstance(a0, (X, PV)) and all(isinstance(l, X) for _, l in pv_leaves(a0)):
-                return pv_apply(lambda x: x.abs(), a0)
-            if name in ("numpy.conj", "numpy.conjugate") and isinstance(a0, Grid): return a0.map(lambda x: x.conj())
+            if name in ("numpy.abs", "numpy.absolute") and isinstance(a0, (X, PV)) and all(isinstance(l, X) or isinstance(l, Mismatch) for _, l in pv_leaves(a0)):
+                return pv_apply(lambda x: x if is_opaque(x) else x.abs(), a0)
+            if name in ("numpy.conj", "numpy.conjugate") and isinstance(a0, Grid): return a0.map(_cj)
             if name == "numpy.zeros":
                 shp = a0 if isinstance(a0, tuple) else (a0,)
                 xs = [to_x(e) for e in shp]
@@ -188,10 +189,14 @@ class Run:
                 if ax is None or ax.as_int() != 0 or not a0.shape: return Mismatch("np.sum over a Grid along an axis other than 0")
                 if len(a0.shape) == 1:
                     tot = X.const(0)
-                    for ix in a0.indices(): tot = tot + a0.cells[ix]
+                    for ix in a0.indices():
+                        if is_opaque(a0.cells[ix]): return a0.cells[ix]
+                        tot = lift2("+", tot, a0.cells[ix])
                     return tot
                 return Opaque("np.sum of a >1-D grid")
-            if name == "numpy.linalg.cond": return OpaqueNum("condition number")
+            if name == "numpy.linalg.cond":
+                KIND["cond_T"] = "pos"
+                return X.var("cond_T")
             if name in ("numpy.linalg.solve",) and isinstance(a0, Grid) and isinstance(args[1], Grid):
                 A, b = a0, args[1]
                 if len(A.shape) != 2 or A.shape[0] != A.shape[1] or b.shape != (A.shape[0],): return Mismatch("linalg.solve on non-square system")
@@ -200,6 +205,25 @@ class Run:
                 except Unknown as ex: return Opaque(str(ex))
                 return Grid((n_,), {(r,): sol[r] for r in range(n_)}, bins=False)
             if name == "numpy.linalg.pinv" and isinstance(a0, Grid):
+                cut = kw.get("rcond", kw.get("rtol", args[1] if len(args) > 1 else None))
+                if cut is not None or kw.get("hermitian") is not None:
+                    # pinv(T, rcond=r) discards singular values below r*s_max: it is T^-1 only while cond(T) < 1/r
+                    rx = to_x(cut).constval() if cut is not None and to_x(cut) is not None else None
+                    lower = None
+                    cT = X.var("cond_T")
+                    for cc, pol in st.assumed:
+                        d = getattr(cc, "lt", None)
+                        if d is None: continue
+                        try:
+                            k1 = (d + cT).constval()          # d = c - cond < 0  <=>  cond > c
+                            if k1 is not None and pol: lower = k1.re
+                            k2 = (d - cT).constval()          # not(cond - c < 0)  <=>  cond >= c
+                            if k2 is not None and not pol: lower = -k2.re
+                        except Unknown: pass
+                    if rx is not None and rx.im == 0 and lower is not None and rx.re * lower >= 1:
+                        return Mismatch(f"pinv(T, rcond={cut!r}) is reached only for cond(T) > {lower}: with rcond*cond >= 1 the smallest singular direction is always "
+                                        "discarded, so H is not the solution of T H = S and one input is silently not subtracted")
+                    return Opaque("pinv with an explicit cut-off is the inverse only while cond(T) < 1/rcond")
                 run.assumed.add("pinv(T) = inverse(T) (T invertible: the generic branch)")
                 if len(a0.shape) != 2 or a0.shape[0] != a0.shape[1]: return Mismatch("pinv of non-square")
                 n_ = a0.shape[0]
@@ -275,7 +299,7 @@ class Run:
 
         def method(I, o, name, args, kw, st, n):
             if isinstance(o, Grid):
-                if name in ("conj", "conjugate"): return o.map(lambda x: x.conj())
+                if name in ("conj", "conjugate"): return o.map(_cj)
                 if name == "copy": return o.map(lambda x: x)
                 return Opaque(f"grid method {name}")
             if isinstance(o, Solution):
@@ -283,7 +307,7 @@ class Run:
                 if name == "keys": return ListVal([k for k, v in o.pairs])
                 if name == "values": return ListVal([v for k, v in o.pairs])
                 return Opaque(f"solve() result method {name}")
-            if isinstance(o, X) and name in ("conj", "conjugate"): return o.conj()
+            if isinstance(o, (X, PV)) and name in ("conj", "conjugate"): return _cj(o)
             return NotImplemented
 
         def expr(I, n, st):
@@ -430,12 +454,17 @@ class Run:
             G.cells[tuple(full)] = v if is_opaque(v) else Opaque("shape mismatch in grid store")
 
     def grid_binop(s, op, a, b):
+        if is_opaque(a): return a
+        if is_opaque(b): return b
         if isinstance(op, ast.MatMult):
             if isinstance(a, Grid) and isinstance(b, Grid) and len(a.shape) == 2 and len(b.shape) == 1 and a.shape[1] == b.shape[0]:
                 out = Grid((a.shape[0],), bins=False)
                 for r in range(a.shape[0]):
                     tot = X.const(0)
-                    for c in range(a.shape[1]): tot = tot + a.cells[(r, c)] * b.cells[(c,)]
+                    for c in range(a.shape[1]):
+                        x_, y_ = a.cells[(r, c)], b.cells[(c,)]
+                        if is_opaque(x_) or is_opaque(y_): tot = x_ if is_opaque(x_) else y_; break
+                        tot = lift2("+", tot, lift2("*", x_, y_))
                     out.cells[(r,)] = tot
                 return out
             return Opaque("matmul of unrecognised grids")
@@ -443,14 +472,20 @@ class Run:
         if sym is None: return Opaque("operator on grid")
 
         def f(x, y):
-            if is_opaque(x): return x
-            if is_opaque(y): return y
-            return scal_op(sym, x, y)
+            def g(u, v):
+                if is_opaque(u): return u
+                if is_opaque(v): return v
+                return scal_op(sym, u, v)
+            return pv_apply(g, x, y)
         if isinstance(a, Grid) and isinstance(b, Grid):
             if a.shape != b.shape: return Opaque("broadcast of different grids")
             return Grid(a.shape, {k: f(a.cells[k], b.cells[k]) for k in a.cells}, a.bins or b.bins)
         if isinstance(a, Grid): return a.map(lambda x: f(x, b))
         return b.map(lambda y: f(a, y))
+
+
+def _cj(x):
+    return pv_apply(lambda v: v if is_opaque(v) else v.conj(), x)
 
 
 def Cond_bool(text):
